@@ -36,7 +36,9 @@ def strategy(tier):
     return st.fixed_dictionaries(
         {
             "prune": st.just(True),
-            "ops": histories(tier, batches=True, aborts=True, sfx_weight=5, near_weight=3, mirror_weight=4),
+            "sparse": st.sampled_from([False, False, True]),
+            "ops": histories(tier, batches=True, aborts=True, sfx_weight=5, near_weight=3, mirror_weight=4,
+                             looks=1),
         }
     )
 
